@@ -36,13 +36,18 @@ func pickFix44(t *rapid.T) (gen.Template, bool) {
 
 func genSerCase(t *rapid.T) *SerCase {
 	sc := &SerCase{WantCS: -1}
+	po := gen.DefaultPop
+	// serialization properties quantify over ALL populations: entries may be blank or lack their first field
+	po.LooseEntries = rapid.IntRange(0, 3).Draw(t, "looseEntries") == 0
 	if rapid.IntRange(0, 99).Draw(t, "source") < 25 {
 		tpl, _ := pickFix44(t)
-		po := gen.DefaultPop
 		po.PresentPct = rapid.SampledFrom([]int{10, 30, 60}).Draw(t, "pct")
 		sc.Case = *gen.Populate(t, tpl, po)
 	} else {
-		sc.Case = *gen.GenCase(t, gen.DefaultOpts, gen.DefaultPop)
+		if po.LooseEntries {
+			po.PresentPct = rapid.SampledFrom([]int{30, 70}).Draw(t, "pctLoose")
+		}
+		sc.Case = *gen.GenCase(t, gen.DefaultOpts, po)
 	}
 	switch rapid.IntRange(0, 9).Draw(t, "steer") {
 	case 0, 1, 2:
